@@ -7,7 +7,8 @@ PROPERTY = 'C17'
 LEVEL = 'exploration'
 RULE = ('complete enumeration over a hierarchy (LookupError > {KeyError, IndexError}, ValueError, RuntimeError, two distinct classes '
         'both named "Error", nested Concurrent[KeyError] and Concurrent[KeyError, ValueError]): every multiset of <= 3 child failures x '
-        'every handler specialisation of <= 3 types (plain and nested, Concurrent[LookupError], Concurrent[KeyError, ...]) with and '
+        'every handler specialisation of <= 3 types (plain and nested, Concurrent[LookupError], Concurrent[KeyError, ...], bare Concurrent as a '
+        'listed type) with and '
         'without trailing ..., plus bare Concurrent x the three mechanisms isinstance / issubclass / a real except clause, compared with '
         'a reference predicate written from the statement; class identity under permutation and duplication of children; flattened() '
         'leaf order; all of it under the native frozenset and under forward / reverse / alternating (neighbouring containers in opposite directions) iteration order of the specialisation sets. '
@@ -30,7 +31,7 @@ def C(types, inclusive=False):
 
 
 CHILD_KINDS = LEAVES + [C([KeyError]), C([KeyError, ValueError])]
-HANDLER_TYPES = LEAVES + [C([KeyError]), C([LookupError]), C([KeyError], True)]
+HANDLER_TYPES = LEAVES + [C([KeyError]), C([LookupError]), C([KeyError], True), BARE]      # (bare Concurrent as a listed type)
 
 
 def ref_sub(c, s):
@@ -186,6 +187,29 @@ def explore_case(case, tier):
                                          'msgs': ['%s: failure with children [%s] vs handler %s: rule says %s, %s says %s' % (
                                              case['policy'], ', '.join(describe(k) for k in kinds), describe(h),
                                              'match' if want else 'no match', mech, 'match' if got else 'no match')]})
+                # the same questions asked with an empty class cache and the FAILURE created first (its class then comes
+                # from the tuple of the children's types, duplicates included; the handler class is looked up afterwards)
+                if len(kinds) - len(set(map(repr, kinds))):
+                    for h in hs:
+                        if h == BARE:
+                            continue
+                        Concurrent.__specialisations__.clear()
+                        exc2 = Concurrent(*[instance(k) for k in kinds])
+                        want = ref_sub(ctype, h)
+                        try:
+                            got_f = isinstance(exc2, real(h))
+                        except Exception as e:      # noqa
+                            got_f = e
+                        n += 1
+                        if got_f != want:
+                            viol.append({'faults': {'mechanism': 'failure-first', 'want': want, 'got': repr(got_f)},
+                                         'msgs': ['%s: failure with children [%s] created BEFORE the handler %s: rule says %s, isinstance says %r' % (
+                                             case['policy'], ', '.join(describe(k) for k in kinds), describe(h),
+                                             'match' if want else 'no match', got_f)]})
+                        del exc2
+                    # (back to the regular regime: handlers first, all of them alive)
+                    Concurrent.__specialisations__.clear()
+                    real_h[:] = [real(h) for h in hs]
     finally:
         set_policy('native')
     return {'execs': n, 'nontrivial': nontrivial, 'outcomes': {case['policy']: 1}, 'viol': viol, 'counters': {}}
@@ -211,6 +235,26 @@ def identity_checks():
             msgs.append('Concurrent[%s] is not the class of a failure with exactly these children' % ([describe(k) for k in kinds],))
         if len(msgs) > 5:
             return msgs
+    # a class that was FIRST created for a failure with repeated child types is the class of that set of types and nothing
+    # else: asked as a handler afterwards, it decides every other failure like a handler created afresh
+    for dup in [k for k in raised() if len(k) - len(set(map(repr, k)))]:
+        Concurrent.__specialisations__.clear()
+        first = Concurrent(*[instance(k) for k in dup])
+        h = C(set(dup))
+        rh = real(h)
+        for kinds in raised():
+            if not kinds:
+                continue
+            want = ref_sub(C(set(kinds)), h)
+            if isinstance(Concurrent(*[instance(k) for k in kinds]), rh) != want:
+                msgs.append('after a failure with children [%s] was created first, handler %s %s a failure with children [%s]' % (
+                    ', '.join(describe(k) for k in dup), describe(h), 'rejects' if want else 'selects',
+                    ', '.join(describe(k) for k in kinds)))
+                break
+        del first
+        if len(msgs) > 5:
+            return msgs
+    Concurrent.__specialisations__.clear()
     # distinct classes with equal names must give distinct specialisations
     if Concurrent[ErrA] is Concurrent[ErrB] or isinstance(Concurrent(ErrA('x')), Concurrent[ErrB]):
         msgs.append('two different exception classes that share a __name__ give the same specialisation')
@@ -236,6 +280,15 @@ def identity_checks():
 
     def build(shape):
         return Concurrent(*[build(x) if isinstance(x, list) else x for x in shape])
+    # the very same nested failure object occurring twice (two activities that awaited the same failed task)
+    shared = Concurrent(leaves[0], leaves[1])
+    deep = Concurrent(shared, leaves[2])
+    for top, order in ((Concurrent(shared, leaves[2], shared), [0, 1, 2, 0, 1]), (Concurrent(shared, shared), [0, 1, 0, 1]),
+                       (Concurrent(deep, leaves[3], Concurrent(leaves[4], shared)), [0, 1, 2, 3, 4, 0, 1])):
+        got = list(top.flattened().children)
+        want = [leaves[i] for i in order]
+        if len(got) != len(want) or any(a is not b for a, b in zip(got, want)):
+            msgs.append('flattened() of a failure that contains the same nested failure twice gives %r, expected %r' % (got, want))
     for shape, order in shapes:
         flat = build(shape).flattened()
         got = list(flat.children)
